@@ -16,7 +16,7 @@ import time
 
 from vlib import core
 from vlib.core import GOENV, Internal
-from vlib.c05 import build_owrunfacts, _repo, _oracle
+from vlib.c05 import build_owrunfacts, _repo, race_probe
 
 CELL_RULES = ("callee-global-write", "shared-write", "shared-loc", "shared-arg", "loop-var", "join")
 PURITY_RULES = ("callee-global-write",)
@@ -34,9 +34,11 @@ def purity_step(rules, tag):
         problems = []
         hits = [v for v in facts["violations"] if v["rule"] in rules]
         for v in hits:
+            # a broken structural obligation, not a failing input (see vlib/c05.py facts_step); the race probe looks for one
             name = "structural rule %s violated in %s" % (v["rule"], v["file"])
             problems.append({"kind": "proof-obligation", "name": name, "detail": v["detail"]})
-            _oracle(ctx, "runfacts:%s:%s" % (v["file"], v["rule"]), "%s: %s" % (name, v["detail"]), family=tag)
+        if hits:
+            race_probe(ctx, hits, tag)
         ctx["info"]["runfacts_" + tag] = {
             "rules": list(rules), "sites": len(facts["sites"]), "callees_scanned": sum(s["callees_scanned"] for s in facts["sites"]),
             "violations": len(hits), "extract_errors": facts["errors"], "seconds": round(time.time() - t0, 2)}
